@@ -12,8 +12,10 @@ CHECKS = {
     'C01': dict(
         category='exploration', design_ref='DESIGN.md §3 C01, §8',
         technique='runtime monitor: independent strict RFC 8259 re-decoding + response-shape oracle over generated request texts; ambient contracts over the repository test-suite',
-        text='Request texts (full member-alphabet product of request objects, typed calls over 28 probe methods incl. suspending, '
-             'suspending-then-failing and coroutine-returning ones, 29 exception kinds incl. library and live-argument exceptions, '
+        text='Request texts (full member-alphabet product of request objects, typed calls over 34 probe methods incl. suspending, '
+             'suspending-then-failing, coroutine-returning (native and non-native coroutine objects), pydantic-constrained and '
+             'underscore-named ones, methods raising library error classes or errors with their own constructor, 36 exception kinds '
+             'incl. library, live-argument, message-less and unprintable exceptions, by-name arguments wrapped in an array, '
              'batches over 17 element kinds exhaustive to length 3 and sampled to 8, duplicate / double-duplicate ids, prefixes and '
              'single-character edits of valid documents, random texts, 1..20000-digit integers, floats, nesting 1..64) are dispatched '
              'on the real sync / async dispatchers under 4 batch-size limits and 3 extra flavours (plain functions on the async '
@@ -85,7 +87,7 @@ CHECKS = {
         technique='runtime monitor: scripted per-attempt outcomes + recording sleep shims (virtual clock) vs retry/backoff reference model',
         text='Sessions of 1..3 requests (single / batch / notification) on one real sync or async client run through a transport scripted '
              'with every outcome sequence of length n+2 for n in 0..2 (thorough 3; 3-4 sampled) over 6 outcome kinds, under a grid of '
-             'backoff families / parameters (caps below the first delay, factor 1, non-zero and negative jitter, attempts 0), 4 codes sets '
+             'backoff families / parameters (caps below the first delay, factor 1 and < 1, non-zero, negative and fresh-per-draw jitter, attempts 0; entry points send / call / client() / proxy / notify / batch.call()), 4 codes sets '
              'x 4 exception sets and 4 strategy sources; the interleaved send / sleep event sequence (arguments to 1e-9, positions, which '
              'sleep function) and the object reaching the caller are compared with the model.',
         note='trusted: vmon/models/retry.py; the names time/asyncio inside pjrpc.client.retry are rebound to recording shims'),
@@ -102,7 +104,8 @@ CHECKS = {
         category='exploration', design_ref='DESIGN.md §3 C11, §8',
         technique='runtime monitor: pairwise differential execution of the sync and async twins on identical inputs',
         text='The request corpora of C01-C03 (x batch limits) and the middleware / handler configurations of C12 run on the sync dispatcher, '
-             'the async dispatcher with coroutines, with plain functions, with suspending middlewares and in sequential-batch mode; C09 retry '
+             'the async dispatcher with coroutines, with plain functions, with suspending middlewares and in sequential-batch mode; notifications '
+             'answered with 16 kinds of body and one batch object fired several times on both clients; C09 retry '
              'sessions with tracers, C19 scripted attempt outcomes incl. BaseException / CancelledError, C07 call programs x notations and '
              'C08 scripted response documents run on the sync and the async client. Documents, code tuples, execution logs, event '
              'sequences, wire documents, outcomes, tracer events and sleep arguments are compared pairwise; no model is involved.',
@@ -111,8 +114,9 @@ CHECKS = {
         category='exploration', design_ref='DESIGN.md §3 C12, §8',
         technique='runtime monitor: event log of instrumented middlewares/handlers vs straight-line model of the configuration',
         text='All 156 stacks of 0..3 (thorough 4) middlewares over five kinds (pass-through, short-circuit, request-rewriting, response-'
-             'rewriting, answer-everything) x 8 error-handler tables x 24 request documents (incl. one-element and all-notification '
-             'batches, rejected documents) x {sync, async, async with suspending middlewares, async sequential-batch} run on the real '
+             'rewriting, answer-everything) x 9 error-handler tables (incl. one handler object listed several times) x 24 request documents (incl. one-element and all-notification '
+             'batches, rejected documents) x {sync, async, async with suspending middlewares, async sequential-batch, async with hooks returning futures / '
+             '__await__ objects, dispatchers obtained from flask / aiohttp add_endpoint() next to decoy hooks} run on the real '
              'dispatchers; per-element enter/exit/handler event sequences (with the objects handed over), executions and the response '
              'sent are compared with the model.',
         note='trusted: the model in vmon/monitors/c12.py + vmon/models/server.py; probes do not raise'),
@@ -123,15 +127,16 @@ CHECKS = {
              'dispatches (succeeding, refused, failing) with fresh contexts on function / positional-context / view methods under three '
              'validators, then weak references to contexts, view instances and method-local objects must be dead and gc counts flat; '
              '(3) 1000 requests with pairwise distinct client-controlled strings: gc counts and the logging manager must not grow; '
-             '(4) 2..16 threads on one dispatcher with GIL yields injected at statement starts of dispatcher.py / validators, incl. cold '
-             'dispatchers with response-changing middlewares, every response compared with the model / a sequential twin.',
+             '(4) 2..16 threads on one dispatcher with GIL yields injected at statement starts of dispatcher.py / validators / pjrpc/common, incl. cold '
+             'dispatchers with response-changing middlewares, every response compared with the model / a sequential twin; (5) hooks that raise in the leak workload; (6) a fingerprint of '
+             'interpreter-wide settings (int digit limit, recursion limit, logging levels, json default codec ...) before, after and during dispatches.',
         note='trusted: vmon/models/server.py; held on the interleavings observed (counted in the evidence), not on all'),
     'C14': dict(
         category='exploration', design_ref='DESIGN.md §3 C14, §8',
         technique='runtime monitor: generated validated methods vs hand-written schema evaluator / annotation table',
         text='Methods of 1..3 parameters with JSON-schema fragments (JsonSchemaValidator; required / additionalProperties stricter than the '
              'signature) or annotations incl. models, enums, Annotated constraints and a model whose field validator raises '
-             '(PydanticValidator, coercion on/off), with context and excluded parameters, as function / coroutine / view method, are '
+             '(PydanticValidator, coercion on/off; x: T = None defaults; schemas declaring draft-04), with context and excluded parameters, as function / coroutine / view method, are '
              'called with conforming, coercible and non-conforming values positionally and by name; executed-iff-conforming, -32602 with '
              'encodable data, unchanged / converted arguments and non-settable excluded parameters are judged against an evaluator '
              'written for exactly that alphabet. One function object is also registered without a context.',
@@ -143,7 +148,7 @@ CHECKS = {
              'dispatcher.view over registries with prefixes None, "a", "a.b" (<= 3 operations enumerated over a reduced alphabet, <= 6 '
              'sampled, crafted three-level, same-prefix and repeated-source merges, re-registrations) on both dispatchers; every model '
              'name, every name one edit away and every private / dunder / non-callable member of views with instance, static, class '
-             'and inherited members under every prefix in play is requested and the reached target token compared with the model.',
+             'and inherited members (also from mixins behind ViewMixin, and a derived view replacing its base) under every prefix in play, and explicitly registered underscore names, is requested and the reached target token compared with the model.',
         note='trusted: the name model inside vmon/monitors/c15.py; add_methods(Method) under a prefix is not judged'),
     'C16': dict(
         category='exploration', design_ref='DESIGN.md §3 C16, §8',
@@ -160,7 +165,7 @@ CHECKS = {
         technique='runtime monitor: documented parameter sets vs the dispatcher as acceptance reference over all params-object subsets',
         text='All signatures of <= 3 (+ sampled 4; thorough all 4 + sampled 5) positional-or-keyword / keyword-only parameters x defaults x '
              'context parameter at each position (by name / positional) x exclusion predicate (by name, by default, by annotation) x '
-             'function / view method are documented by OpenAPI 3.1 and OpenRPC (pydantic extractor); documented names / required lists are '
+             'function / instance, static and class view method / wrapper publishing a narrowed __signature__ are documented by OpenAPI 3.1 and OpenRPC (pydantic extractor), acceptance judged under the base validator and three pydantic configurations; documented names / required lists are '
              'compared with the signature, and params objects over all subsets of (documented + undocumented + context + excluded names) '
              'are dispatched on the real dispatcher to compare acceptance with the document\'s prediction; the same function is also '
              'registered without a context and both registrations are probed alternately.',
@@ -170,7 +175,7 @@ CHECKS = {
         technique='runtime monitor: framework test clients vs twin dispatcher, cross-integration differential',
         text='HTTP POSTs over 19 media-type header forms (documented types with / without parameters, case variants, near misses, unrelated, '
              'missing) plus declared non-UTF-8 charsets, x ~55 bodies from the C01-C03 corpus (batches, notifications, garbage, undecodable) '
-             'x three status-by-error functions x three path prefixes x root / added / sub-application endpoints that answer with their own '
+             'x four status-by-error functions x three path prefixes x root / added / sub-application endpoints that answer with their own '
              'name go through aiohttp (loop-back TestServer), flask and werkzeug applications built by the integrations; status, recorded '
              'status-function argument, body document, content type, empty-200, 415-and-no-execution and escaping exceptions are judged '
              'against a twin dispatcher called directly, and the three replies to one request against each other.',
@@ -180,14 +185,15 @@ CHECKS = {
         technique='runtime monitor: tracer-event automaton over scripted attempt outcomes incl. real task cancellation and concurrent requests',
         text='Requests of each kind are sent with 0..3 recording tracers and retry strategies of 0..3 attempts through a transport scripted '
              'over 11 per-attempt outcomes (incl. BaseException, CancelledError raised by the transport, cancelling the client task while '
-             'the transport is suspended), also from inside an except block, and 2..3 requests are kept in flight through one async client '
+             'the transport is suspended), with tracers whose handlers are class or instance attributes, notifications answered with a '
+             'body under strict / non-strict clients, also from inside an except block, and 2..3 requests are kept in flight through one async client '
              'and released in every order; an automaton checks begin/completion pairing per attempt, configuration order, payload identity, '
              'trace-context identity and the exception reaching the caller.',
         note='trusted: vmon/models/retry.py for which attempts happen; probe tracers do not raise'),
     'C20': dict(
         category='exploration', design_ref='DESIGN.md §3 C20, §8',
         technique='runtime monitor: model-based operation/call histories through the patched transport of the real mocker',
-        text='Histories of add / replace / remove / reset operations and single / batch calls (positional and named params, ids incl. 0 and '
+        text='Histories of add / replace / remove / reset operations and single / batch (1..3 elements) calls (positional and named params, ids incl. 0 and '
              '"") over 2 endpoints x 2 methods, passthrough on/off, sync and async transports are executed against the real PjRpcMocker; '
              'after every call the reply text, refusal, passthrough invocation and mocker.calls are compared with a rotating-list model. '
              'Histories of <= 3 operations over a reduced alphabet are enumerated, longer ones sampled.',
